@@ -426,9 +426,9 @@ func RunC10(seed int64, tier, out string) {
 	hx.Seed(seed)
 	g := &cv.Gen{R: rand.New(rand.NewSource(hx.Rng.Int63()))}
 	res := hx.NewResult("C10", seed, tier)
-	histories, maxLen, perFile, crashP := 320, 36, 20, 250
+	histories, maxLen, perFile, crashP := 240, 32, 15, 200
 	if tier != "quick" {
-		histories, maxLen, perFile, crashP = 3200, 200, 16, 100
+		histories, maxLen, perFile, crashP = 2400, 120, 24, 100
 	}
 	w := &fileWriter{dir: out, fn: "mismatches10"}
 	defer os.RemoveAll(filepath.Join(out, "tmp_ldb"))
